@@ -847,14 +847,17 @@ where
                             0
                         }
                     }
-                    Some(Pending::Acc { stale: Some(site), .. }) if policy == "stale" || policy == "stale2" => {
+                    Some(Pending::Acc { stale: Some(site), .. }) if policy == "stale" || policy == "stale2" || policy == "stale3" => {
                         // answer the load with a value the location held earlier
                         match *site {
                             rt::StaleSite::First(c) => match w.store_hist.get(c) {
                                 Some(h) if !h.is_empty() && rng.below(100) < 60 => 2 + h[rng.below(h.len() as u64) as usize] as u64,
                                 _ => 0,
                             },
-                            _ if policy != "stale2" => 0,
+                            _ if policy == "stale" => 0,
+                            rt::StaleSite::Cache(a) => {
+                                if policy == "stale3" { stale_choice(w, t, a, true, &mut rng) } else { 0 }
+                            }
                             rt::StaleSite::Scan(a) | rt::StaleSite::InUse(a) => stale_choice(w, t, a, matches!(*site, rt::StaleSite::Scan(_)), &mut rng),
                             rt::StaleSite::Head => stale_choice(w, t, w.head_addr, false, &mut rng),
                         }
